@@ -199,6 +199,8 @@ package plugin
 //@   ensures [nothing-left-open-when-ended] result == nil ==> (forall p deployer.Plugin :: openconn(p) ==> old(openconn(p)))
 //
 //@ func (*runningStep).enableStage
+//@   site call Unlock#1 assert [a-step-reports-waiting-for-its-enabled-input-exactly-when-it-lacks-it] \
+//@        (r.state == step.RunningStepStateWaitingForInput) == !r.enabledInputAvailable
 //@   opt goroutine run
 //@   requires wfstep(r) && nolocks() && r.currentStage == StageIDDeploy && fresh0(r)
 //@   modifies r.currentStage, r.state, ghost reported
